@@ -1,4 +1,151 @@
-import Mwp.Model.Analysis
-import Mwp.Spec.Calculus
+/-
+  C18 — Unary operators and casts are analysed as their documented rewriting (model level).
+  `Analysis.compute` returns THE SAME result (index, relation list, exit flag, delta graph,
+  skipped list — or the same exception) on the sugared statement and on its plain rewriting.
+  Helper lemmas: Mwp/Lemmas/Misc18.lean, Mwp/Lemmas/RefineLeaf.lean (`unaryAsgn_*`).
+-/
+import Mwp.Lemmas.Misc18
 namespace Mwp.Props.C18
+open Mwp Mwp.Analysis Mwp.Misc18
+
+/-! ## stand-alone increments / decrements:  `x++;  ≡  x = x + 1;` -/
+
+theorem post_incr (q idx dg x) :
+    compute q idx dg (.unop "p++" (.id x)) =
+      compute q idx dg (.assign "=" (.id x) (.binop "+" (.id x) (.const "int" "1"))) := by
+  rw [compute_unop_incdec _ _ _ _ _ (by decide), compute_assign_binop, Refine.lastChar_postInc]
+
+theorem pre_incr (q idx dg x) :
+    compute q idx dg (.unop "++" (.id x)) =
+      compute q idx dg (.assign "=" (.id x) (.binop "+" (.id x) (.const "int" "1"))) := by
+  rw [compute_unop_incdec _ _ _ _ _ (by decide), compute_assign_binop, Refine.lastChar_preInc]
+
+theorem post_decr (q idx dg x) :
+    compute q idx dg (.unop "p--" (.id x)) =
+      compute q idx dg (.assign "=" (.id x) (.binop "-" (.id x) (.const "int" "1"))) := by
+  rw [compute_unop_incdec _ _ _ _ _ (by decide), compute_assign_binop, Refine.lastChar_postDec]
+
+theorem pre_decr (q idx dg x) :
+    compute q idx dg (.unop "--" (.id x)) =
+      compute q idx dg (.assign "=" (.id x) (.binop "-" (.id x) (.const "int" "1"))) := by
+  rw [compute_unop_incdec _ _ _ _ _ (by decide), compute_assign_binop, Refine.lastChar_preDec]
+
+/-! ## `y = x++;  ≡  { y = x; x = x + 1; }`   and   `y = ++x;  ≡  { x = x + 1; y = x; }`
+    (no side condition: also for `x = y`, empty names, and when `y = x` raises) -/
+
+theorem asgn_post_incr (q idx dg y x) :
+    compute q idx dg (.assign "=" (.id y) (.unop "p++" (.id x))) =
+      compute q idx dg (.compound (some [.assign "=" (.id y) (.id x),
+        .assign "=" (.id x) (.binop "+" (.id x) (.const "int" "1"))])) :=
+  asgn_post q idx dg y x "p++" "+" (.inl rfl) (Refine.unaryAsgn_postInc idx y (.id x) x rfl)
+
+theorem asgn_post_decr (q idx dg y x) :
+    compute q idx dg (.assign "=" (.id y) (.unop "p--" (.id x))) =
+      compute q idx dg (.compound (some [.assign "=" (.id y) (.id x),
+        .assign "=" (.id x) (.binop "-" (.id x) (.const "int" "1"))])) :=
+  asgn_post q idx dg y x "p--" "-" (.inr rfl) (Refine.unaryAsgn_postDec idx y (.id x) x rfl)
+
+theorem asgn_pre_incr (q idx dg y x) :
+    compute q idx dg (.assign "=" (.id y) (.unop "++" (.id x))) =
+      compute q idx dg (.compound (some [.assign "=" (.id x) (.binop "+" (.id x) (.const "int" "1")),
+        .assign "=" (.id y) (.id x)])) :=
+  asgn_pre q idx dg y x "++" "+" (Refine.unaryAsgn_preInc idx y (.id x) x rfl)
+
+theorem asgn_pre_decr (q idx dg y x) :
+    compute q idx dg (.assign "=" (.id y) (.unop "--" (.id x))) =
+      compute q idx dg (.compound (some [.assign "=" (.id x) (.binop "-" (.id x) (.const "int" "1")),
+        .assign "=" (.id y) (.id x)])) :=
+  asgn_pre q idx dg y x "--" "-" (Refine.unaryAsgn_preDec idx y (.id x) x rfl)
+
+/-! ## sign, negation, sizeof -/
+
+/-- `y = -x;  ≡  y = x * c;` for any integer literal `c` (the implementation uses `-1`) -/
+theorem asgn_minus (q idx dg y x v) :
+    compute q idx dg (.assign "=" (.id y) (.unop "-" (.id x))) =
+      compute q idx dg (.assign "=" (.id y) (.binop "*" (.id x) (.const "int" v))) := by
+  rw [compute_assign_unop, Refine.unaryAsgn_minus idx y (.id x) x rfl, compute_assign_binop,
+    binaryOp_const_value idx y "*" (.id x) "int" v "int" "-1"]
+  cases binaryOp idx y "*" (.id x) (.const "int" "-1") <;> rfl
+
+/-- `y = +x;  ≡  y = x;` -/
+theorem asgn_plus (q idx dg y x) :
+    compute q idx dg (.assign "=" (.id y) (.unop "+" (.id x))) =
+      compute q idx dg (.assign "=" (.id y) (.id x)) := by
+  rw [compute_assign_unop, Refine.unaryAsgn_plus idx y (.id x) x rfl, compute_assign_id]
+  cases idAsgn y x <;> rfl
+
+/-- `y = !e;  ≡  y = c;` for ANY operand `e` and any constant `c` -/
+theorem asgn_not (q idx dg y e ty v) :
+    compute q idx dg (.assign "=" (.id y) (.unop "!" e)) =
+      compute q idx dg (.assign "=" (.id y) (.const ty v)) := by
+  rw [compute_assign_unop, Refine.unaryAsgn_not, compute_assign_const]; rfl
+
+/-- `y = sizeof e;  ≡  y = c;` for ANY operand `e` and any constant `c` -/
+theorem asgn_sizeof (q idx dg y e ty v) :
+    compute q idx dg (.assign "=" (.id y) (.unop "sizeof" e)) =
+      compute q idx dg (.assign "=" (.id y) (.const ty v)) := by
+  rw [compute_assign_unop, Refine.unaryAsgn_sizeof, compute_assign_const]; rfl
+
+/-- `y = op c;  ≡  y = c;` for a constant operand, whatever the operator (in particular `-c`) -/
+theorem asgn_unary_const (q idx dg y op ty v ty' v') :
+    compute q idx dg (.assign "=" (.id y) (.unop op (.const ty v))) =
+      compute q idx dg (.assign "=" (.id y) (.const ty' v')) := by
+  rw [compute_assign_unop, Refine.unaryAsgn_const idx y op (.const ty v) ty v rfl,
+    compute_assign_const]; rfl
+
+theorem asgn_minus_const (q idx dg y ty v) :
+    compute q idx dg (.assign "=" (.id y) (.unop "-" (.const ty v))) =
+      compute q idx dg (.assign "=" (.id y) (.const ty v)) :=
+  asgn_unary_const q idx dg y "-" ty v ty v
+
+/-! ## casts are transparent -/
+
+/-- ONE cast around the whole right-hand side (`h`: the implementation strips exactly one) -/
+theorem cast_whole_rhs (q idx dg x r) (h : r.isCast = false) :
+    compute q idx dg (.assign "=" (.id x) (.cast r)) = compute q idx dg (.assign "=" (.id x) r) :=
+  compute_assign_cast q idx dg "=" x r h
+
+/-- casts around the operands of a binary operation (any depth: `l`, `r` may be casts again) -/
+theorem cast_operands (q idx dg x op l r) :
+    compute q idx dg (.assign "=" (.id x) (.binop op (.cast l) (.cast r))) =
+      compute q idx dg (.assign "=" (.id x) (.binop op l r)) := by
+  rw [compute_assign_binop, compute_assign_binop, binaryOp_cast]
+
+/-- a cast around the operand of a unary operator -/
+theorem cast_unary_operand (q idx dg x op e) :
+    compute q idx dg (.assign "=" (.id x) (.unop op (.cast e))) =
+      compute q idx dg (.assign "=" (.id x) (.unop op e)) := by
+  rw [compute_assign_unop, compute_assign_unop, unaryAsgn_cast]
+
+/-! ## every other stand-alone unary expression has no effect -/
+
+theorem standalone_unary_no_effect (q idx dg op e)
+    (h : ¬ (Gen.incDec.contains op = true ∧ e.rmCast.isId = true)) :
+    compute q idx dg (.unop op e) = .ok (skip idx dg) :=
+  compute_unop_skip q idx dg op e h
+
+/-! ## non-vacuity: the common value is a successful, non-trivial analysis; the side conditions
+    are satisfiable and needed -/
+
+example : (compute true 0 [] (.unop "p++" (.id "x"))).toOption.map (fun o => (o.index, o.rels.map (·.vars)))
+    = some (1, [["x"]]) := by decide
+example : (compute false 3 [] (.assign "=" (.id "y") (.unop "p++" (.id "x")))).toOption.map
+    (fun o => (o.index, o.rels.map (·.vars), o.skipped)) = some (4, [["y", "x"]], []) := by decide
+example : (compute false 3 [] (.assign "=" (.id "y") (.unop "--" (.id "x")))).toOption.map
+    (fun o => (o.index, o.rels.map (·.vars), o.skipped)) = some (4, [["x", "y"]], []) := by decide
+example : (compute true 0 [] (.assign "=" (.id "y") (.unop "-" (.id "x")))).toOption.map
+    (fun o => (o.index, o.rels.map (·.vars))) = some (1, [["y", "x"]]) := by decide
+example : (compute true 0 [] (.assign "=" (.id "y") (.unop "!" (.binop "<" (.id "a") (.id "b"))))).toOption.map
+    (fun o => (o.index, o.rels.map (·.vars), o.skipped)) = some (0, [["y"]], []) := by decide
+/-- `cast_whole_rhs` needs `h`: with two casts the statement is skipped as unsupported -/
+example : (compute true 0 [] (.assign "=" (.id "x") (.cast (.cast (.id "y"))))).toOption.map (·.skipped)
+      = some ["Assignment"] ∧
+    (compute true 0 [] (.assign "=" (.id "x") (.cast (.id "y")))).toOption.map (·.skipped) = some [] := by
+  decide
+example : (Node.id "y").isCast = false := rfl
+/-- `standalone_unary_no_effect`: hypothesis satisfiable (`-x;`, `(a+b)++;`), and not for `x++;` -/
+example : ¬ (Gen.incDec.contains "-" = true ∧ (Node.id "x").rmCast.isId = true) := by decide
+example : ¬ (Gen.incDec.contains "p++" = true ∧ (Node.binop "+" (.id "a") (.id "b")).rmCast.isId = true) := by
+  decide
+
 end Mwp.Props.C18
